@@ -5,10 +5,22 @@ from gen import domgen as D
 from props import xmlcommon as X
 
 # node-set and count queries only: in the raw view a string value depends on whether `>` was written as `&gt;` (after `]]`)
-# (the last two FAIL after they have collected and sorted nodes - an unbound prefix, a variable: the context that lives as long as
-# the history must carry nothing of them into the queries after the next edit; round-6 seed C07-H kept order keys by node id)
-QUERIES = ("//*;//@*;//comment();//processing-instruction();count(//comment() | //processing-instruction());count(//*);(//*|//@*)[2];"
-           "//*[last()];//*/@*[1];//node() | //zz:x;(//*)[last()][$v]")
+# the battery ENDS with two queries that FAIL after they have collected and sorted nodes (an unbound prefix, a variable): the
+# context that lives as long as the history must carry nothing of them into the queries after the next edit (round-6 seed
+# C07-H kept order keys by node id until the next SUCCESSFUL query); `battery(extra)` keeps them last
+# ... and BEGINS with every node but the text nodes (adjacent ones print as one run) and the attributes in ONE node-set: any two
+# nodes whose order the edit has changed are in it, and it is the first thing asked after the edit
+QUERIES_BASE = ("//node()[not(self::text())] | //@*;"
+                "//*;//@*;//comment();//processing-instruction();count(//comment() | //processing-instruction());count(//*);(//*|//@*)[2];"
+                "//*[last()];//*/@*[1];(//node()[not(self::text())] | //@*)[last()]")
+FAILING_TAIL = "//node() | //zz:x;(//*)[last()][$v]"
+
+
+def battery(extra=""):
+    return QUERIES_BASE + (";" + extra.strip(";") if extra else "") + ";" + FAILING_TAIL
+
+
+QUERIES = battery()
 
 
 def histories(rng, n, max_ops, hostile, deep=0):
@@ -330,7 +342,7 @@ def run_c14(chk):
     # the same kind of histories on documents read WITH text expansion (the view xq / xe use; character data, CDATA and
     # references are one merged node): monitors only
     xcases = histories(rng, 600 if thorough else 200, 10, 0.1)
-    ximpl = lib.run_lines(lib.build_harness(), [lib.req("domx", t, QUERIES + ";//text();//node()", *ops) for t, ops in xcases],
+    ximpl = lib.run_lines(lib.build_harness(), [lib.req("domx", t, battery("//text();//node()"), *ops) for t, ops in xcases],
                           timeout=900, per_line_resume=True)
     x_ok = 0
     for (t, ops), a in zip(xcases, ximpl):
